@@ -5,6 +5,7 @@ import (
 	"go/types"
 	"sort"
 	"strings"
+	"sync"
 
 	"golang.org/x/tools/go/ssa"
 )
@@ -20,9 +21,20 @@ type heapReg struct {
 var theReg = &heapReg{sortFn: map[string]func(vc *VC) string{}}
 var scratch = NewPrelude()
 
-func (P *Prog) heapSorts() map[string]func(vc *VC) string { return theReg.sortFn }
+// regMu guards the process-wide registries (heap names, scratch prelude, function ids, dispatch
+// caches): verification conditions of different functions are generated concurrently.
+var regMu sync.Mutex
+
+func (P *Prog) heapSortFn(name string) (func(vc *VC) string, bool) {
+	regMu.Lock()
+	defer regMu.Unlock()
+	f, ok := theReg.sortFn[name]
+	return f, ok
+}
 
 func regField(st types.Type, i int) string {
+	regMu.Lock()
+	defer regMu.Unlock()
 	n := fieldHeap(st, i)
 	if _, ok := theReg.sortFn[n]; !ok {
 		theReg.sortFn[n] = func(vc *VC) string { return vc.fieldHeapSort(st, i) }
@@ -31,6 +43,8 @@ func regField(st types.Type, i int) string {
 }
 
 func regArr(elem types.Type) string {
+	regMu.Lock()
+	defer regMu.Unlock()
 	n := "HA:" + heapTypeKey(elem)
 	if _, ok := theReg.sortFn[n]; !ok {
 		theReg.sortFn[n] = func(vc *VC) string { _, s := vc.arrHeap(elem); return s }
@@ -39,6 +53,8 @@ func regArr(elem types.Type) string {
 }
 
 func regCell(t types.Type) string {
+	regMu.Lock()
+	defer regMu.Unlock()
 	n := "HV:" + heapTypeKey(t)
 	if _, ok := theReg.sortFn[n]; !ok {
 		theReg.sortFn[n] = func(vc *VC) string { _, s := vc.cellHeap(t); return s }
@@ -47,6 +63,8 @@ func regCell(t types.Type) string {
 }
 
 func regMap(mt *types.Map) (string, string) {
+	regMu.Lock()
+	defer regMu.Unlock()
 	k, v := heapTypeKey(mt.Key()), heapTypeKey(mt.Elem())
 	dn, vn := "HMd:"+k+":"+v, "HMv:"+k+":"+v
 	if _, ok := theReg.sortFn[dn]; !ok {
@@ -57,6 +75,8 @@ func regMap(mt *types.Map) (string, string) {
 }
 
 func regGlobal(g *ssa.Global) string {
+	regMu.Lock()
+	defer regMu.Unlock()
 	n := globalHeap(g)
 	if _, ok := theReg.sortFn[n]; !ok {
 		t := g.Type().(*types.Pointer).Elem()
@@ -270,7 +290,10 @@ func (P *Prog) instrMods(ins ssa.Instruction, inScope func(*ssa.BasicBlock) bool
 	case *ssa.Alloc, *ssa.MakeMap, *ssa.MakeSlice:
 		return []string{"$next"}
 	case *ssa.Convert:
-		if scratch.sortOf(x.X.Type()) == "Str" && scratch.sortOf(x.Type()) == "Slice" {
+		regMu.Lock()
+		isConv := scratch.sortOf(x.X.Type()) == "Str" && scratch.sortOf(x.Type()) == "Slice"
+		regMu.Unlock()
+		if isConv {
 			return []string{"$next"}
 		}
 	case *ssa.Slice:
@@ -449,6 +472,8 @@ type implTarget struct {
 
 // implementations returns the module methods that may be the target of invoking m, per dynamic type.
 func (P *Prog) implementations(m *types.Func) []implTarget {
+	P.mu.Lock()
+	defer P.mu.Unlock()
 	key := m.FullName()
 	if r, ok := P.implCache[key]; ok {
 		return r
@@ -489,6 +514,8 @@ type fvCand struct {
 // fvCandidates lists the module functions of the given signature whose address is taken somewhere
 // (method values, function literals, functions used as values).
 func (P *Prog) fvCandidates(sig *types.Signature) []fvCand {
+	P.mu.Lock()
+	defer P.mu.Unlock()
 	if P.fvAll == nil {
 		P.fvAll = map[*ssa.Function]bool{}
 		P.fvBound = map[*ssa.Function]bool{}
@@ -583,6 +610,8 @@ func (P *Prog) allBodies() []*ssa.Function {
 }
 
 func (P *Prog) fnID(key string) int {
+	P.mu2.Lock()
+	defer P.mu2.Unlock()
 	if P.fnIDs == nil {
 		P.fnIDs = map[string]int{}
 	}
@@ -595,6 +624,8 @@ func (P *Prog) fnID(key string) int {
 }
 
 func (P *Prog) concreteTypes() []types.Type {
+	P.mu2.Lock()
+	defer P.mu2.Unlock()
 	if P.allTypes != nil {
 		return P.allTypes
 	}
